@@ -160,10 +160,7 @@ CLAIMED = {
              "Tie: Gen files regenerated every run + exact correspondence on dyadic coordinates / widths (basis matrices, bitwise "
              "gridding = interpolate^T), Python wrappers by correspondence."
              ' Deepened: the Python wrappers interpolate / gridding are translator-generated statement by statement (Gen/InterpWrappers.lean: ndim, batch/points shapes, every reshape target, scalar-vs-sequence width/param broadcasting, dispatch index and kernel tables, output reshape) with interpolateW_spec / griddingW_spec / wrapper_spec; the executable array semantics is linked to the function-level one (applyUpd_eq_runUpd, applyUpd_eq_sum), so interpolate_value_spec / gridding_value_spec hold for what the driver runs.',
-        note="Trusted: Lean kernel; translator; Python wrappers (batch flattening, scalar/per-axis broadcasting) and applyUpd vs "
-             "runUpd tied by correspondence; the Kaiser-Bessel kernel has no rational model: its update structure is compared "
-             "exactly (driver emits kernel arguments, harness multiplies sigpy's own kernel values) and its values are checked "
-             "against scipy.special.i0 at 2.5e-7 by the oracle only; float rounding not modelled.",
+        note="Trusted: Lean kernel; translator; the Python list/slice/reshape semantics the generated wrappers are interpreted with (Model/C07Py.lean) and the domain guard 1 <= ndim <= 3 are hand-written and tied by correspondence; the cupy branch is not modelled; the Kaiser-Bessel kernel has no rational model: its update structure is compared exactly (driver emits kernel arguments, harness multiplies sigpy's own kernel values) and its values are checked against scipy.special.i0 at 2.5e-7 by the oracle only; float rounding not modelled.",
         technique="Lean 4 proof over translator-generated loop nests + exact differential correspondence",
         design="DESIGN.md §3 C07, §9"),
     "C06": dict(
@@ -358,10 +355,7 @@ CLAIMED = {
              "power_le_bound. Tie: translator + counter/done traces of 9 classes and App.run under random done()/update() "
              "interleavings up to max_iter+2, PDHG / GradientMethod stepped against the Lean transcription."
              " Deepened: the PDHG residual formulas and Newton's residual are translator-generated (Gen/C15Resid.lean), C15's PDHG step is C13's generated step; early_stop_fixed_pdhg_general (any gamma_primal, gamma_dual, theta, scalar or array steps: resid <= 0 => saddle point => the next update with the rescaled steps changes neither x nor u), early_stop_fixed_newton_ls (backtracking line search), pdRescale_steps_pos.",
-        note="Trusted: Lean kernel; translator gen_c15; PDHG step-size adaptation (gamma > 0), array-valued steps, Newton line search "
-             "and SDMM traces are not modelled (search oracle only); power_le_bound takes an operator bound L (lambda_max = ||A|| is "
-             "checked numerically); the extra-update comparison for GerchbergSaxton uses 1e-10 (its least-squares re-solve "
-             "reproduces the fixed point to 1 ulp only).",
+        note='Trusted: Lean kernel; translator gen_c15; SDMM has no run-time traces; the statement order of NewtonsMethod._update and of GradientMethod is transcribed by hand in C15 (tied by the step stream); for PDHG with gamma > 0 the extra-update comparison uses 1e-10 relative (a float fixed point of the old steps is reproduced by the rescaled steps to 1 ulp; in exact arithmetic it is early_stop_fixed_pdhg_general); power_le_bound takes an operator bound L (lambda_max = ||A|| is checked numerically); the extra-update comparison for GerchbergSaxton uses 1e-10 (its least-squares re-solve reproduces the fixed point to 1 ulp only).',
         technique="Lean 4 proof (loop bound over translator-generated done/counter logic, fixed-point theorems) + trace correspondence",
         design="DESIGN.md §3 C15, §9"),
     "C18": dict(
